@@ -19,7 +19,26 @@ struct Tape
     Tape(const uint32_t* p_, size_t n_) : p(p_), n(n_) {}
     explicit Tape(const std::vector<uint32_t>& v) : p(v.data()), n(v.size()) {}
     bool exhausted() const { return i >= n; }
-    uint32_t next() { return i < n ? p[i++] : 0; }
+    // When `extend` is set, an exhausted tape continues with a stream that is a pure function of the tape's own words
+    // (so the case is still determined by the generated input); used only by generators that need thousands of choices
+    // (very long games), where "all zeros" would just repeat one move.
+    bool extend = false;
+    uint64_t ext_state = 0;
+    uint32_t next()
+    {
+        if (i < n) return p[i++];
+        if (!extend) return 0;
+        if (ext_state == 0)
+        {
+            ext_state = 0x9E3779B97F4A7C15ULL;
+            for (size_t k = 0; k < n; ++k) ext_state = (ext_state ^ p[k]) * 0x100000001B3ULL;
+            ext_state |= 1;
+        }
+        ext_state ^= ext_state >> 12;
+        ext_state ^= ext_state << 25;
+        ext_state ^= ext_state >> 27;
+        return uint32_t((ext_state * 0x2545F4914F6CDD1DULL) >> 32);
+    }
     uint32_t choose(uint32_t k) { return k ? next() % k : 0; }
     bool flag() { return next() & 1; }
     // true with probability num/den (0 on exhausted tape -> true only if num==den)
